@@ -37,6 +37,23 @@ _random.seed(AMBIENT)
 import numpy as np  # noqa: E402
 
 np.random.seed(AMBIENT)
+# the content of uninitialised memory is an ambient condition too: np.empty / np.empty_like return arrays filled with a value
+# that differs between the twins (what a run reads before it has written it then shows as a difference)
+_np_empty, _np_empty_like = np.empty, np.empty_like
+
+
+def _fill(a):
+    if a.dtype.kind in "fc":
+        a.fill(0.5 + 2.0 * AMBIENT)
+    elif a.dtype.kind in "iu":
+        a.fill(AMBIENT)
+    elif a.dtype.kind == "b":
+        a.fill(bool(AMBIENT % 2))
+    return a
+
+
+np.empty = lambda *a, **k: _fill(_np_empty(*a, **k))
+np.empty_like = lambda *a, **k: _fill(_np_empty_like(*a, **k))
 
 os.environ.setdefault("JAX_PLATFORMS", "cpu")
 import warnings  # noqa: E402
@@ -115,8 +132,12 @@ def dig_buffer_value(v, p, out, size, cur):
         for i, x in enumerate(v):
             dig_buffer_value(x, f"{p}/{i}", out, size, cur)
     elif isinstance(v, (set, frozenset)):
-        out[p + "/<insertion-order>"] = "list:" + ",".join(str(x) for x in v)  # iteration order is part of the state
-        out[p + "/<sorted>"] = "list:" + ",".join(str(x) for x in sorted(v))
+        if all(isinstance(x, (int, float, str, bool, np.integer, np.floating)) for x in v):
+            out[p + "/<insertion-order>"] = "list:" + ",".join(str(x) for x in v)  # iteration order is part of the state
+            out[p + "/<sorted>"] = "list:" + ",".join(str(x) for x in sorted(v, key=str))
+        else:       # a set of objects: their addresses are not state; what the run does with its iteration order shows elsewhere
+            out[p + "/<len>"] = f"int:{len(v)}"
+            out[p + "/<element-types>"] = "list:" + ",".join(sorted({type(x).__name__ for x in v}))
     elif isinstance(v, jax.Array):
         out[p] = h_array(v)
     else:
